@@ -149,6 +149,41 @@ func init() {
 			}
 		}
 		runSessions(r, cases, outputDiffers)
+		// escape letters in front of the call form of a modifier ({%hh= mod(args) %}, no variable): the letters apply to the
+		// modifier's result exactly as they apply to a variable holding that result (a relation on the real engine alone)
+		for _, call := range []string{`vcat(v)`, `vcat("a b<c>&'d'")`, `vcat(v, {k: w})`, `math::abs(n)`} {
+			kc, err, pan := regTpl("{%= "+call+" %}", true)
+			if err != nil || pan != "" {
+				r.Violate("call-form parse "+call, "the call form of a modifier is rejected by Parse", map[string]any{"source": "{%= " + call + " %}", "error": fmt.Sprint(err), "panic": pan})
+				continue
+			}
+			mk := func() *dyntpl.Ctx {
+				c := dyntpl.NewCtx()
+				c.SetString("v", `x<y>&"z" /?`)
+				c.SetStatic("w", int64(-7))
+				c.SetStatic("n", -5.5)
+				return c
+			}
+			plain := renderSafe(kc, mk())
+			for _, letters := range []string{"h", "hh", "q", "u", "uu", "j", "a", "c", "J", "hq", "ju"} {
+				kl, err1, pan1 := regTpl("{%"+letters+"= "+call+" %}", true)
+				kv, err2, pan2 := regTpl("{%"+letters+"= res %}", true)
+				if err1 != nil || err2 != nil || pan1 != "" || pan2 != "" {
+					r.Violate("call-form parse "+letters+" "+call, "escape letters with the call form of a modifier are rejected by Parse", map[string]any{"source": "{%" + letters + "= " + call + " %}"})
+					continue
+				}
+				got := renderSafe(kl, mk())
+				cv := mk()
+				cv.SetBytes("res", plain.Out)
+				want := renderSafe(kv, cv)
+				r.Count("call-form:"+letters+":"+call, true)
+				r.Dist["call-form-letters"]++
+				if got.Panic != "" || got.ErrStr() != want.ErrStr() || !bytes.Equal(got.Out, want.Out) {
+					r.Violate("call-form "+letters+" "+call, "escape letters in front of the call form of a modifier do not escape the modifier's result",
+						map[string]any{"source": "{%" + letters + "= " + call + " %}", "output": string(got.Out), "modifier_result": string(plain.Out), "letters_on_that_result": string(want.Out), "error": got.ErrStr()})
+				}
+			}
+		}
 		// spellings of a key-value group (a relation on the real engine alone: the parser decides what the
 		// modifier receives): blanks after "{", before "}", around ":" and ",", single quotes — the same arguments
 		respell := []func(string) string{
